@@ -22,17 +22,17 @@ type Obligation struct {
 
 // Report accumulates the verdicts of one property check.
 type Report struct {
-	Property string
-	Tier     string
-	Seed     int64
-	Obl      []Obligation
-	floors   map[string]int
-	rules    map[string]string // rule -> one-line statement of the rule
-	ruleList []string
-	NotDecided []string
+	Property    string
+	Tier        string
+	Seed        int64
+	Obl         []Obligation
+	floors      map[string]int
+	rules       map[string]string // rule -> one-line statement of the rule
+	ruleList    []string
+	NotDecided  []string
 	Assumptions []string
-	start    time.Time
-	Extra    map[string]any
+	start       time.Time
+	Extra       map[string]any
 }
 
 // NewReport starts a report.
